@@ -5,6 +5,7 @@ import (
 	"context"
 	"errors"
 	"fmt"
+	"github.com/golang/protobuf/proto"
 	"net"
 	"os"
 	"sort"
@@ -56,6 +57,10 @@ type Step struct {
 	// remove: one other member misses the log replication of the removal (heartbeats still reach it); the removed node
 	// then restarts and announces itself again - same address - through that lagging member
 	Rejoin bool `json:"rejoin,omitempty"`
+	// join: one other member misses this join - raft traffic to it is lost until the others have compacted their logs, so
+	// it learns of the joiner through a leader snapshot; it then applies an ordinary entry, compacts its own log and
+	// restarts (what it lists afterwards comes from the snapshot it wrote itself)
+	Missed bool `json:"missed,omitempty"`
 }
 
 type Case struct {
@@ -82,6 +87,7 @@ func genCase(t *rapid.T) Case {
 				s.Cut = rapid.SampledFrom([]int{-1, 1, 2, 3}).Draw(t, "cut")
 			}
 			s.Behind = rapid.IntRange(0, 3).Draw(t, "behind") == 0
+			s.Missed = !s.Behind && s.Cut == 0 && rapid.IntRange(0, 3).Draw(t, "missed") == 0
 		case SRemove:
 			s.Rejoin = rapid.IntRange(0, 2).Draw(t, "rejoin") == 0
 		case STick:
@@ -479,6 +485,22 @@ func check(c Case, o *pbt.Obs) *pbt.Failure {
 				}
 				lagging = m
 			}
+			var absent *member // the member that misses this join
+			if s.Missed && !tapesActive && len(ins) >= 3 {
+				for k := 0; k < len(ins) && absent == nil; k++ {
+					if cand := ins[(s.Via+1+k)%len(ins)]; cand != via && cand.zero.VerifStatus().RaftState != etcdRaft.StateLeader {
+						absent = cand
+					}
+				}
+				if absent != nil {
+					for _, x := range w.ms {
+						if x != absent {
+							w.net.SetDown(x.id, absent.id, true)
+						}
+					}
+					lagging = absent
+				}
+			}
 			// the joiner asks `via`; with a lossy handshake it retries once through the same member, as an operator would
 			// (the RPC blocks on the member while it knows no leader: logical time must keep flowing meanwhile)
 			before := calm(via)
@@ -531,6 +553,54 @@ func check(c Case, o *pbt.Obs) *pbt.Failure {
 					}
 					if sn, e := wal.NewBadgerWAL(m.db, uuid.Nil).Snapshot(); e == nil && !etcdRaft.IsEmptySnap(sn) {
 						o.Label("joiner-caught-up-through-a-snapshot")
+					}
+				}
+			}
+			if absent != nil {
+				if err == nil && !unknown[m.id] {
+					// the others compact their logs past the join; the absentee is reachable again and catches up through a snapshot
+					for _, x := range inMembers() {
+						if x != absent {
+							x.zero.VerifSnapshotNow()
+						}
+					}
+				}
+				for _, x := range w.ms {
+					if x != absent {
+						w.net.SetDown(x.id, absent.id, false)
+					}
+				}
+				lagging = nil
+				if err == nil && !unknown[m.id] {
+					for r := 0; r < 900 && !applied(m.id, true); r++ {
+						w.tickAll(1)
+						time.Sleep(100 * time.Microsecond)
+					}
+					// an ordinary entry (a proposal for a consumer nobody runs), applied by the absentee too
+					before := absent.zero.VerifStatus().Applied
+					noop, _ := proto.Marshal(&pb.SharedGroupProposal{ProxyName: "nobody"})
+					_ = w.whileTicking(func() error {
+						ctx, cancel := context.WithTimeout(context.Background(), 500*time.Millisecond)
+						defer cancel()
+						return via.zero.Propose(ctx, noop)
+					})
+					for r := 0; r < 900 && absent.zero.VerifStatus().Applied <= before; r++ {
+						w.tickAll(1)
+						time.Sleep(100 * time.Microsecond)
+					}
+					if absent.zero.VerifStatus().Applied > before && applied(m.id, true) {
+						// it compacts its own log and restarts
+						absent.zero.VerifSnapshotNow()
+						w.kill(absent)
+						time.Sleep(200 * time.Microsecond)
+						if e := w.start(absent, false); e == errListen {
+							o.Inconclusive("port-of-restarting-member-taken")
+							return nil
+						} else if e != nil {
+							return pbt.Failf("C20:restart-fails", "step %d: member %d does not come up again: %v", si, absent.i, e)
+						}
+						absent.hadSnapshotRestart = true
+						o.Label("member-that-missed-a-join-compacted-its-own-log-and-restarted")
 					}
 				}
 			}
@@ -795,7 +865,7 @@ func check(c Case, o *pbt.Obs) *pbt.Failure {
 func TestMembershipConverges(t *testing.T) {
 	pbt.Run(t, pbt.Prop[Case]{
 		ID: "C20", Name: "TestMembershipConverges",
-		Rule:    "rapid-generated histories on up to 5 members, each with a real zero RaftGroup (+ shared group), NodesManager and Conn over its own Badger store; joins run the repository's NodesManager.Join against a real gRPC NodesManager service on a loopback port of the member asked (optionally breaking the reply stream after 0-2 nodes, with one retry), joins whose raft traffic is lost until the members have compacted their logs (the joiner catches up through a snapshot), removals through any member (optionally while one other member misses the log replication, followed by the removed node restarting and announcing itself again through that lagging member), restarts of members (new Conn/transport/group over the same store, same address), zero-group snapshots (log compaction) through the loop hook on any member at any point, raft messages through the simulated network with per-link decision tapes, logical ticks; oracle after healing and bounded quiescence: every live member whose join was acknowledged lists every acknowledged, not removed member with the address it announced, and lists no member whose removal was acknowledged; the membership stored with every local snapshot equals the membership at its index (stored snapshot's members + membership entries up to it), durable term/commit never go back; an acknowledged change requested in a calm cluster (stable leader known to the member asked, no unapplied membership change, no link faults) is applied within 600 ticks; no log.Fatal in a zero group; non-trivial = >=2 members and (a restart after a join or a lossy handshake); distinct = distinct case JSON",
+		Rule:    "rapid-generated histories on up to 5 members, each with a real zero RaftGroup (+ shared group), NodesManager and Conn over its own Badger store; joins run the repository's NodesManager.Join against a real gRPC NodesManager service on a loopback port of the member asked (optionally breaking the reply stream after 0-2 nodes, with one retry), joins whose raft traffic is lost until the members have compacted their logs (the joiner catches up through a snapshot), joins that one other member misses (it catches up through a leader snapshot, applies an ordinary entry, compacts its own log and restarts), removals through any member (optionally while one other member misses the log replication, followed by the removed node restarting and announcing itself again through that lagging member), restarts of members (new Conn/transport/group over the same store, same address), zero-group snapshots (log compaction) through the loop hook on any member at any point, raft messages through the simulated network with per-link decision tapes, logical ticks; oracle after healing and bounded quiescence: every live member whose join was acknowledged lists every acknowledged, not removed member with the address it announced, and lists no member whose removal was acknowledged; the membership stored with every local snapshot equals the membership at its index (stored snapshot's members + membership entries up to it), durable term/commit never go back; an acknowledged change requested in a calm cluster (stable leader known to the member asked, no unapplied membership change, no link faults) is applied within 600 ticks; no log.Fatal in a zero group; non-trivial = >=2 members and (a restart after a join or a lossy handshake); distinct = distinct case JSON",
 		Gen:     genCase,
 		Check:   check,
 		Journal: true,
